@@ -833,6 +833,7 @@ func TestVerifC12(t *testing.T) {
 	})
 	c12SmallWrites(run)
 	c12Lazy(run)
+	c12ReadRetries(run)
 }
 
 // ================================================================ small service sets: write order
@@ -1469,6 +1470,361 @@ func c12Lazy(run *verifkit.Run) {
 		}
 		sort.Strings(kl)
 		run.Feature(fmt.Sprintf("lazy,%s,%s,%s,%s,hints=%s,n%d", c.Source, c.Ctor, c.Via, c.FirstOp, strings.Join(kl, "+"), (nsvc+3)/4))
+		if i < 2 {
+			run.Sample(c)
+		}
+	})
+}
+
+// ================================================================ read order in retry rounds
+//
+// Stream "read-retries": Retries 1-3 and services that fail transiently
+// (connection error, 408, 429, 5xx) round after round before one finally
+// answers or all give up. The probe sequence is recorded per round (round of a
+// request = number of earlier requests to the same host; no host is listed
+// twice in this stream) and EVERY round is judged: usable hints before
+// un-hinted services, un-hinted services in non-increasing reference weight,
+// each retry round a subsequence of the round before, nobody asked again who
+// did not fail transiently.
+
+type c12rCase struct {
+	Svcs     []c12Svc          `json:"svcs"`
+	Load     string            `json:"load"`
+	Hash     string            `json:"hash"`
+	Size     int               `json:"size"`
+	DataSeed uint64            `json:"data_seed"`
+	Hints    []string          `json:"hints,omitempty"`
+	Gateways map[string]string `json:"gateways,omitempty"`
+	Locator  string            `json:"locator"`
+	Via      string            `json:"via"`
+	Retries  int               `json:"retries"`
+	// Script: host url -> status per round (0 = connection error, 200 = has the block)
+	Script map[string][]int `json:"script"`
+}
+
+type c12rRec struct {
+	mu     sync.Mutex
+	c      *c12rCase
+	data   []byte
+	nreq   map[string]int
+	rounds [][]string
+	extra  []string
+}
+
+func (t *c12rRec) Do(req *http.Request) (*http.Response, error) {
+	if req.Body != nil {
+		io.Copy(io.Discard, req.Body)
+		req.Body.Close()
+	}
+	host := req.URL.Scheme + "://" + req.URL.Host
+	t.mu.Lock()
+	k := t.nreq[host]
+	t.nreq[host]++
+	for len(t.rounds) <= k {
+		t.rounds = append(t.rounds, nil)
+	}
+	t.rounds[k] = append(t.rounds[k], host)
+	sc, ok := t.c.Script[host]
+	status := 404
+	if !ok {
+		t.extra = append(t.extra, host)
+	} else if k < len(sc) {
+		status = sc[k]
+	} else {
+		status = sc[len(sc)-1]
+	}
+	t.mu.Unlock()
+	if status == 0 {
+		return nil, errors.New("connection reset by peer (verif)")
+	}
+	body := []byte("nope\n")
+	if status == 200 {
+		body = t.data
+	}
+	var rb io.ReadCloser = io.NopCloser(bytes.NewReader(body))
+	if req.Method == "HEAD" {
+		rb = io.NopCloser(bytes.NewReader(nil))
+	}
+	return &http.Response{
+		Status: fmt.Sprintf("%d %s", status, http.StatusText(status)), StatusCode: status,
+		Proto: "HTTP/1.1", ProtoMajor: 1, ProtoMinor: 1,
+		Header: http.Header{}, Body: rb, ContentLength: int64(len(body)), Request: req,
+	}, nil
+}
+
+func c12ReadRetries(run *verifkit.Run) {
+	const alnum = "0123456789abcdefghijklmnopqrstuvwxyz"
+	transient := []int{0, 0, 408, 429, 500, 502, 503, 504}
+	run.Cases("read-retries", run.N(5000, 100000), func(i int, rng *verifkit.Rand) {
+		c := &c12rCase{Load: rng.PickStr("json", "roots"), Via: rng.PickStr("Get", "Get", "Ask"), Retries: rng.Range(1, 3), Script: map[string][]int{}}
+		nsvc := rng.Range(8, 16)
+		if rng.Chance(1, 6) {
+			nsvc = rng.Range(3, 7)
+		}
+		class := rng.PickStr("all27", "all27", "all27", "mixed", "non27")
+		used := map[string]bool{}
+		for s := 0; s < nsvc; s++ {
+			var u string
+			for {
+				if class == "all27" || (class == "mixed" && rng.Bool()) {
+					u = rng.String(5, alnum) + "-bi6l4-" + rng.String(15, alnum)
+				} else {
+					l := rng.PickInt(5, 15, 26, 28, 40, rng.Range(1, 45))
+					if l == 27 {
+						l = 26
+					}
+					u = rng.String(l, alnum+"-")
+				}
+				if !used[u] {
+					used[u] = true
+					break
+				}
+			}
+			c.Svcs = append(c.Svcs, c12Svc{UUID: u, Type: rng.PickStr("disk", "disk", "proxy"), RO: rng.Chance(1, 6)})
+		}
+		c.Size = rng.Range(1, 64)
+		c.DataSeed = rng.Uint64()
+		data := verifkit.NewRand(c.DataSeed).Bytes(c.Size)
+		c.Hash = verifkit.MD5Hex(data)
+		idx := map[string]int{}
+		byURL := map[string]string{}
+		var all []string
+		for k, s := range c.Svcs {
+			idx[s.UUID] = k
+			byURL[c12URL(s.UUID, idx)] = s.UUID
+			all = append(all, s.UUID)
+		}
+		// hints (never naming a local service: no host is listed twice)
+		var hintURLs []string
+		hinted := map[string]bool{}
+		if c.Load == "roots" {
+			c.Gateways = map[string]string{}
+		}
+		nh := 0
+		if rng.Chance(2, 3) {
+			nh = rng.Range(1, 3)
+		}
+		for h := 0; h < nh; h++ {
+			switch {
+			case c.Load == "roots" && rng.Bool():
+				u := "zzzzz-bi6l4-" + rng.String(15, alnum)
+				if used[u] {
+					continue
+				}
+				used[u] = true
+				url := fmt.Sprintf("http://c12-gw%d.invalid:25107", len(c.Gateways))
+				c.Gateways[u] = url
+				c.Hints = append(c.Hints, "K@"+u)
+				hintURLs = append(hintURLs, url)
+				hinted[url] = true
+			case rng.Chance(1, 4):
+				c.Hints = append(c.Hints, "K@zzzzz-bi6l4-"+rng.String(15, alnum)) // unknown gateway
+			default:
+				cl := rng.String(5, alnum)
+				url := "https://keep." + cl + ".arvadosapi.com"
+				if hinted[url] {
+					continue
+				}
+				c.Hints = append(c.Hints, "K@"+cl)
+				hintURLs = append(hintURLs, url)
+				hinted[url] = true
+			}
+		}
+		parts := append([]string(nil), c.Hints...)
+		if rng.Bool() {
+			pos := rng.Intn(len(parts) + 1)
+			parts = append(parts[:pos], append([]string{"A" + rng.Hex(40) + "@" + rng.Hex(8)}, parts[pos:]...)...)
+		}
+		c.Locator = fmt.Sprintf("%s+%d", c.Hash, c.Size)
+		if len(parts) > 0 {
+			c.Locator += "+" + strings.Join(parts, "+")
+		}
+		// scripts: most hosts fail transiently round after round; maybe one
+		// finally has the block
+		hosts := append([]string(nil), hintURLs...)
+		for _, u := range all {
+			hosts = append(hosts, c12URL(u, idx))
+		}
+		pFail := rng.PickInt(5, 7, 9, 10) // out of 10
+		for _, h := range hosts {
+			var sc []int
+			for r := 0; r <= c.Retries; r++ {
+				if rng.Intn(10) < pFail {
+					sc = append(sc, transient[rng.Intn(len(transient))])
+				} else {
+					sc = append(sc, rng.PickInt(404, 404, 403))
+					break
+				}
+			}
+			c.Script[h] = sc
+		}
+		ended := "gave-up"
+		if rng.Chance(1, 2) {
+			h := hosts[rng.Intn(len(hosts))]
+			r := rng.Intn(c.Retries + 1)
+			sc := c.Script[h]
+			for len(sc) <= r {
+				sc = append(sc, transient[rng.Intn(len(transient))])
+			}
+			for k := 0; k < r; k++ {
+				if sc[k] == 404 || sc[k] == 403 {
+					sc[k] = transient[rng.Intn(len(transient))]
+				}
+			}
+			sc[r] = 200
+			c.Script[h] = sc[:r+1]
+			ended = "found"
+		}
+		run.Input(c, false)
+
+		rec := &c12rRec{c: c, data: data, nreq: map[string]int{}}
+		kc := &KeepClient{
+			Arvados:       &arvadosclient.ArvadosClient{ApiToken: "veriftoken", Client: http.DefaultClient},
+			Want_replicas: 1, Retries: c.Retries, HTTPClient: rec, RequestID: "c12r",
+		}
+		if c.Load == "json" {
+			type item struct {
+				UUID string `json:"uuid"`
+				Host string `json:"service_host"`
+				Port int    `json:"service_port"`
+				SSL  bool   `json:"service_ssl_flag"`
+				Type string `json:"service_type"`
+				RO   bool   `json:"read_only"`
+			}
+			var items []item
+			for _, k := range rng.Perm(nsvc) {
+				sv := c.Svcs[k]
+				items = append(items, item{UUID: sv.UUID, Host: fmt.Sprintf("c12-s%d.invalid", k), Port: 25107, Type: sv.Type, RO: sv.RO})
+			}
+			b, _ := json.Marshal(map[string]interface{}{"items": items})
+			if err := kc.LoadKeepServicesFromJSON(string(b)); err != nil {
+				run.Inconclusive("C12: cannot load services: " + err.Error())
+				return
+			}
+		} else {
+			locals, writables := map[string]string{}, map[string]string{}
+			for _, sv := range c.Svcs {
+				locals[sv.UUID] = c12URL(sv.UUID, idx)
+				if !sv.RO {
+					writables[sv.UUID] = c12URL(sv.UUID, idx)
+				}
+			}
+			kc.SetServiceRoots(locals, writables, c.Gateways)
+		}
+		if c.Via == "Ask" {
+			kc.Ask(c.Locator)
+		} else {
+			r, _, _, _ := kc.Get(c.Locator)
+			if r != nil {
+				io.Copy(io.Discard, r)
+				r.Close()
+			}
+		}
+		rec.mu.Lock()
+		rounds := rec.rounds
+		extra := rec.extra
+		rec.mu.Unlock()
+
+		bad := func(sig, detail string) {
+			run.Violation(sig, fmt.Sprintf("%s\nlocator %s, Retries %d, probe sequence per round %v", detail, c.Locator, c.Retries, rounds), c)
+		}
+		if len(extra) > 0 {
+			bad("C12:R:request-to-host-outside-service-set", fmt.Sprintf("requests to %v", extra))
+			return
+		}
+		if len(rounds) > 1+c.Retries {
+			bad("C12:RR:more-rounds-than-1+retries", fmt.Sprintf("%d rounds", len(rounds)))
+			return
+		}
+		multi := 0
+		for r, seq := range rounds {
+			run.Eval(3)
+			run.Count("read_retry_rounds_judged", 1)
+			if r > 0 && len(seq) >= 2 {
+				multi++
+			}
+			label := "first-round"
+			if r > 0 {
+				label = "retry-round"
+			}
+			// hints before un-hinted services; un-hinted in reference order
+			seenLocal := ""
+			prevW, prevU := "", ""
+			dup := map[string]bool{}
+			for _, h := range seq {
+				if dup[h] {
+					bad("C12:RR:host-asked-twice-in-one-round:"+label, fmt.Sprintf("round %d: %s", r, h))
+					return
+				}
+				dup[h] = true
+				if hinted[h] {
+					if seenLocal != "" {
+						bad("C12:H1:hint-tried-after-rendezvous-order:"+label, fmt.Sprintf("round %d: hinted service %s is asked after the un-hinted service %s", r, h, seenLocal))
+						return
+					}
+					continue
+				}
+				u := byURL[h]
+				seenLocal = u
+				if w, ok := c12Weight(c.Hash, u); ok {
+					if prevU != "" && w > prevW {
+						bad("C12:R:read-order-differs-from-reference:"+label, fmt.Sprintf("round %d: %s (weight %s) is asked before %s (weight %s); reference order of all services %v", r, prevU, prevW, u, w, c12RefOrder(c.Hash, c12Only27(all))))
+						return
+					}
+					prevW, prevU = w, u
+				}
+			}
+			if r == 0 {
+				continue
+			}
+			// retry set and relative order of the round before
+			prev := rounds[r-1]
+			pos := map[string]int{}
+			for k, h := range prev {
+				pos[h] = k
+			}
+			last := -1
+			for _, h := range seq {
+				k, ok := pos[h]
+				if !ok {
+					bad("C12:RR:service-outside-the-retry-set-asked", fmt.Sprintf("round %d asks %s, which was not asked in round %d", r, h, r-1))
+					return
+				}
+				sc := c.Script[h]
+				k1 := r - 1
+				if k1 >= len(sc) {
+					k1 = len(sc) - 1
+				}
+				if st := sc[k1]; !(st == 0 || st == 408 || st == 429 || st >= 500) {
+					bad("C12:RR:service-outside-the-retry-set-asked", fmt.Sprintf("round %d asks %s again although it answered %d in round %d", r, h, st, r-1))
+					return
+				}
+				if k < last {
+					bad("C12:RR:retry-round-reorders-the-remaining-services", fmt.Sprintf("round %d order %v is not a subsequence of round %d order %v", r, seq, r-1, prev))
+					return
+				}
+				last = k
+			}
+		}
+		run.Count("read_retry_cases", 1)
+		run.Count("read_retry_cases_"+ended, 1)
+		if multi > 0 {
+			run.Count("read_retry_cases_with_a_retry_round_of_2+_services", 1)
+			run.Count("read_retry_rounds_of_2+_services", multi)
+		}
+		nb := "n3-7"
+		if nsvc >= 8 {
+			nb = "n8-16"
+		}
+		hk := "nohints"
+		if len(hintURLs) > 0 {
+			hk = fmt.Sprintf("hints%d", len(hintURLs))
+		}
+		if len(rounds) <= 1 {
+			run.Trivial()
+		} else {
+			run.Feature(fmt.Sprintf("read-retries,%s,%s,%s,%s,retr%d,rounds%d,%s,%s", nb, class, c.Load, c.Via, c.Retries, len(rounds), hk, ended))
+		}
 		if i < 2 {
 			run.Sample(c)
 		}
